@@ -69,3 +69,32 @@ ENTRY h_attach_detach() {
   }
   for (int i = 0; i < 4; i++) tok[i].release();                   // tokens are not destroyed inside the query (their destructor detaches)
 }
+
+// ---- scripted deep stack: attach a, b, a, c (a context attached twice, depth 4 crosses both growth steps 0->2->6), then detach
+// two symbolically chosen tokens (out of order / repeated / already unwound) and compare with the stack model after each step
+ENTRY h_attach_script() {
+  context::Context e;
+  context::Context ctx[3] = {e.SetValue("k", (int64_t)1), e.SetValue("k", (int64_t)2), e.SetValue("k", (int64_t)3)};
+  static const int script[4] = {0, 1, 0, 2};
+  nostd::unique_ptr<context::Token> tok[4]; int stack[4]; int depth = 0;
+  for (int i = 0; i < 4; i++) { tok[i] = context::RuntimeContext::Attach(ctx[script[i]]); stack[depth++] = script[i]; }
+  {
+    context::Context cur = context::RuntimeContext::GetCurrent(); int64_t v = 0; bool has = get_i64(cur, Key{"k", 1}, v);
+    VASSERT(has && v == 3, "after four attaches the last attached context is current");
+  }
+#ifndef DSTEPS
+#define DSTEPS 1
+#endif
+  for (int step = 0; step < DSTEPS; step++) {
+    uint8_t ti = nondet_u8(); VASSUME(ti < 4);
+    context::Token *t = ti == 0 ? tok[0].get() : (ti == 1 ? tok[1].get() : (ti == 2 ? tok[2].get() : tok[3].get()));
+    bool r = context::RuntimeContext::Detach(*t);
+    int pos = -1; for (int i = 0; i < depth; i++) if (stack[i] == script[ti]) pos = i;     // most recent occurrence of the token's context
+    VASSERT(r == (pos >= 0), "deep stack: Detach reports whether the token's context was on the stack");
+    if (pos >= 0) depth = pos;
+    context::Context cur = context::RuntimeContext::GetCurrent(); int64_t v = 0; bool has = get_i64(cur, Key{"k", 1}, v);
+    if (depth == 0) VASSERT(!has, "deep stack: everything unwound leaves the empty context current");
+    else VASSERT(has && v == stack[depth - 1] + 1, "deep stack: detaching restores the context that was current before the matching (most recent) Attach");
+  }
+  for (int i = 0; i < 4; i++) tok[i].release();
+}
